@@ -145,7 +145,7 @@ def release(F, R, d):
                     why = 'the request carries a packet id but is forwarded with control() (= control_pkt(.., 0)): the id is never removed from the in-flight set when the acknowledgement is produced'
                 else:
                     og = Origin(b).of_operand(t['args'][2])
-                    ok = any(l[0] == 'call' and re.search(r'NonZero.*::get$', l[1]) for l in og) and not any(l[0] == 'const' for l in og)
+                    ok = (any(l[0] == 'call' and re.search(r'NonZero.*::get$', l[1]) for l in og) or any(l[0] == 'arg' and l[2] and l[2][-1] == 'packet_id' for l in og)) and not any(l[0] == 'const' for l in og)
                     why = 'the packet id passed to control_pkt does not originate from the request (%s)' % sorted(map(str, og))[:4]
                 R.ob('C11.release', '%s|%s|%s|id-forwarded' % (d.name, arm, nm), ok, why, b.loc(bi))
         # control_pkt: remove(arg id) on the Ok edge
@@ -154,12 +154,16 @@ def release(F, R, d):
         R.ob('C11.release', '%s|control_pkt|removes-id' % d.name, len(rms) >= 1, 'control_pkt never removes the id')
         for bi, t, ap in rms:
             og = Origin(cp).of_operand(t['args'][1])
-            ok = any(l[0] == 'call' and 'NonZero' in l[1] and l[1].endswith('::new') for l in og)
+            ok = any(l[0] == 'call' and 'NonZero' in l[1] and l[1].endswith('::new') for l in og) or any(l[0] == 'arg' and l[1] == cp.argc for l in og) or (cp.is_coroutine and any(l[0] == 'arg' and l[1] == 1 and l[2] and l[2][0] in [str(i) for i, u in enumerate(cp.d.get('upvars') or []) if u.get('name') == 'packet_id'] for l in og))
             R.ob('C11.release', '%s|control_pkt|remove|id-is-argument' % d.name, ok, 'remove() is not applied to the packet_id argument', cp.loc(bi))
         # control() forwards constant 0
         c = d.control
         for bi, t in d.call_sites(c, r'Inner::<C>::control_pkt'):
             v = const_val(t['args'][2])
+            if v is None:
+                og = Origin(c).of_operand(t['args'][2])
+                if og and all(l[0] == 'agg' and l[1] == 'std::option::Option::None' for l in og):
+                    v = 0  # `None` in the Option<NonZeroU16> representation of "no packet id"
             R.ob('C11.release', '%s|control|forwards-zero' % d.name, v == 0, 'control() is expected to be control_pkt(.., 0); found %s' % v, c.loc(bi))
 
 
